@@ -18,6 +18,7 @@ RULE = ("one run = 1-4 simulated terminals, each starting in INIT/PRE-OP/SAFE-OP
         "delays, fault poll) tuples per terminal set; non-trivial = at least one AL control "
         "write happened")
 RULE += "; since the 4th session 'concurrent' also has two callers with different targets on one healthy terminal (each judged on its own return), and 'group' starts the same group a second time after terminals dropped back with an error or were power-cycled"
+RULE += '; also the status poll before the one that shows the error left unanswered, and for groups the step rule SAFE-OP only after PRE-OP was reported'
 COMPONENTS = {
     "real": ["ebpfcat.ethercat.Terminal.to_operational/get_state", "EtherCat.roundtrip, "
              "sendloop, process_packet"],
